@@ -365,4 +365,99 @@ theorem fractionCompare_spec {cap radix : Nat} {den : Limbs} (D : DenOk cap radi
           rw [← v']
           exact fractionCompare_spec D cs num' hcs N'
 
+theorem dv_append (radix : Nat) (a b : List Nat) : dv radix (a ++ b) = dv radix a ++ dv radix b := by
+  unfold dv; rw [List.map_append]
+
+theorem skipZeros_lt {bs : List Nat} (h : ∀ c ∈ bs, c < 256) : ∀ c ∈ Binary.skipZeros bs, c < 256 := by
+  intro c hc
+  unfold Binary.skipZeros at hc
+  exact h c ((List.dropWhile_suffix _).subset hc)
+
+/-- **`compare_bytes`** on the significant bytes of a `Number` is the digit comparison of their values; no panic -/
+theorem compareBytes_spec {cap radix : Nat} {den num : Limbs} (D : DenOk cap radix den) (N : NumOk den num)
+    (integer : List Nat) (fraction : Option (List Nat)) (hbi : ∀ c ∈ integer, c < 256)
+    (hbf : ∀ fr, fraction = some fr → ∀ c ∈ fr, c < 256) (hne : sigBytes integer fraction ≠ []) :
+    compareBytes cap radix integer fraction num den =
+      some (cmpDigits radix (valL den) (dv radix (sigBytes integer fraction)) (valL num)) := by
+  have hii := skipZeros_lt hbi
+  unfold compareBytes cmpDigits
+  dsimp only
+  cases fraction with
+  | none =>
+    simp only [sigBytes] at hne ⊢
+    have hemp : (Binary.skipZeros integer).isEmpty = false := by
+      cases h : Binary.skipZeros integer with
+      | nil => exact absurd h hne
+      | cons a as => rfl
+    rw [hemp]
+    simp only [Bool.false_eq_true, if_false]
+    have := integerCompare_spec D (Binary.skipZeros integer) num hii N
+    cases hs : stepsN radix (valL den) (dv radix (Binary.skipZeros integer)) (valL num) with
+    | inl o => rw [hs] at this; simp only [] at this; rw [this]
+    | inr x' =>
+      rw [hs] at this
+      simp only [] at this
+      obtain ⟨num', e1, N', v'⟩ := this
+      rw [e1]
+      simp only []
+      by_cases hx : x' = 0
+      · rw [if_pos hx]
+        have : num'.isEmpty = true := (isEmpty_iff N'.1).mpr (by rw [v', hx])
+        simp [this]
+      · rw [if_neg hx]
+        have : num'.isEmpty = false := by
+          cases h : num'.isEmpty with
+          | false => rfl
+          | true => exact absurd ((isEmpty_iff N'.1).mp h) (by rw [v']; exact hx)
+        simp [this]
+  | some fr =>
+    have hfr := hbf fr rfl
+    simp only [sigBytes] at hne ⊢
+    by_cases hi0 : Binary.skipZeros integer = []
+    · rw [if_pos hi0] at hne ⊢
+      rw [hi0]
+      simp only [List.isEmpty_nil, if_true]
+      have := fractionCompare_spec D (Binary.skipZeros fr) num (skipZeros_lt hfr) N
+      cases hs : stepsN radix (valL den) (dv radix (Binary.skipZeros fr)) (valL num) with
+      | inl o => rw [hs] at this; simp only [] at this; rw [this]
+      | inr x' =>
+        rw [hs] at this
+        simp only [] at this
+        by_cases hx : x' = 0
+        · rw [if_pos hx] at this
+          obtain ⟨num', e1⟩ := this
+          rw [e1]; simp [hx]
+        · rw [if_neg hx] at this
+          rw [this]; simp [hx]
+    · rw [if_neg hi0] at hne ⊢
+      have hemp : (Binary.skipZeros integer).isEmpty = false := by
+        cases h : Binary.skipZeros integer with
+        | nil => exact absurd h hi0
+        | cons a as => rfl
+      rw [hemp]
+      simp only [Bool.false_eq_true, if_false]
+      rw [dv_append, stepsN_append]
+      have := integerCompare_spec D (Binary.skipZeros integer) num hii N
+      cases hs : stepsN radix (valL den) (dv radix (Binary.skipZeros integer)) (valL num) with
+      | inl o => rw [hs] at this; simp only [] at this; rw [this]
+      | inr x' =>
+        rw [hs] at this
+        simp only [] at this
+        obtain ⟨num', e1, N', v'⟩ := this
+        rw [e1]
+        simp only []
+        have h2 := fractionCompare_spec D fr num' hfr N'
+        rw [v'] at h2
+        cases hs2 : stepsN radix (valL den) (dv radix fr) x' with
+        | inl o => rw [hs2] at h2; simp only [] at h2; rw [h2]
+        | inr x'' =>
+          rw [hs2] at h2
+          simp only [] at h2
+          by_cases hx : x'' = 0
+          · rw [if_pos hx] at h2
+            obtain ⟨num'', e2⟩ := h2
+            rw [e2]; simp [hx]
+          · rw [if_neg hx] at h2
+            rw [h2]; simp [hx]
+
 end LexVerif.Proof.Slow
